@@ -642,3 +642,213 @@ Lemma keyword_call_narop : forall prims (c : callargs) g a args x ys,
   Forall2 (fun o y => callv (env_of prims c) true o = ONum y /\ is_err o = false) args ys ->
   call (env_of prims c) true (apply_narop g a args) = ONum (snd g x ys).
 Proof. intros prims c. apply (lift_narop_hom (env_of prims c)). Qed.
+
+(* ====================================================================== *)
+(* the homomorphism for ALL operand kinds, one evaluation step              *)
+
+(* selector(x, y) as the dispatch of a sequence / an Operand applies it to its elements / value *)
+Definition sel2_f (n : nat) (g : op2) : obj -> obj -> obj :=
+  match fst g with SRaw => raw_apply2 g | SDec => apply_binop_f n (demote g) | SPy => apply_binop_f n g end.
+Definition sel1_f (n : nat) (g : op1) : obj -> obj :=
+  match fst g with SRaw => raw_apply1 g | SDec => apply_unop_f n (demote g) | SPy => apply_unop_f n g end.
+
+(* Exhaustive over the kinds of BOTH operands (number, Function, Stream, Pattern, list/tuple,
+   ChannelList, Operand/Rest; any composite of these): whichever operand composes, one evaluation step
+   of `a op b` -- calling it, pulling it as a stream, streaming it as a pattern, its items, its value --
+   is the selector applied to the same evaluation step of the operands (a non-lazy operand standing
+   for itself / the constant stream), with a on the LEFT.  For every selector, every env. *)
+Lemma lift_binop_hom_step : forall env fx (g : op2) a b, is_err a = false -> is_err b = false ->
+  let n := S (odepth a + odepth b) in
+  match class_of a with
+  | CFn => call env fx (apply_binop g a b) = sel_apply2 g (callv env fx a) (callv env fx b)
+  | CStr => xpull MPull (apply_binop g a b) = szip (sel_apply2 g) (xpull MPull a) (xpull MStream b)
+  | CPat => xpull MStream (apply_binop g a b) = szip (sel_apply2 g) (xpull MStream a) (xpull MStream b)
+  | CSeq KChan => apply_binop g a b = list_binop_f oview OSeq OErr n (sel2_f n g) a b KChan
+  | COperand r => apply_binop g a b = mk_operand r (sel2_f n g (operand_value a) (operand_value b))
+  | _ =>
+    match class_of b with
+    | CFn => call env fx (apply_binop g a b) = sel_apply2 g a (call env fx b)
+    | CStr => xpull MPull (apply_binop g a b) = szip (sel_apply2 g) (SConst a) (xpull MPull b)
+    | CPat => xpull MStream (apply_binop g a b) = szip (sel_apply2 g) (SConst a) (xpull MStream b)
+    | CSeq KChan => apply_binop g a b = list_binop_f oview OSeq OErr n (sel2_f n g) a b KChan
+    | COperand r => apply_binop g a b = mk_operand r (sel2_f n g a (operand_value b))
+    | _ => match num_of a, num_of b with
+           | Some x, Some y => apply_binop g a b = ONum (snd g x y)
+           | _, _ => apply_binop g a b = OErr EType
+           end
+    end
+  end.
+Proof.
+  intros env fx g a b Ha Hb n.
+  destruct (class_of a) eqn:Ca.
+  - (* CNum *) destruct a; try discriminate. clear Ca.
+    destruct b; try discriminate; try reflexivity. destruct k; reflexivity.
+  - (* CFn *) apply fn_binop_call; [destruct a; try discriminate; reflexivity|exact Hb].
+  - (* CStr *) rewrite str_compose_binop by assumption.
+    change (xpull MPull (OBinStr g a (to_stream b))) with (szip (sel_apply2 g) (xpull MPull a) (xpull MPull (to_stream b))).
+    rewrite xpull_to_stream. reflexivity.
+  - (* CPat *) assert (E : apply_binop g a b = OBinPat g a b) by (destruct a; try discriminate; destruct b; try discriminate; reflexivity).
+    rewrite E. reflexivity.
+  - (* CSeq *) destruct a; try discriminate. injection Ca as ->.
+    destruct k.
+    + destruct b; try discriminate; try reflexivity. destruct k; reflexivity.
+    + destruct b; try discriminate; try reflexivity. destruct k; reflexivity.
+    + destruct b; try discriminate; reflexivity.
+  - (* COperand *) destruct a; try discriminate. injection Ca as ->. destruct b; try discriminate; reflexivity.
+  - destruct a; discriminate.
+Qed.
+
+Lemma lift_unop_hom_step : forall env fx (g : op1) a, is_err a = false ->
+  let n := S (odepth a) in
+  match class_of a with
+  | CFn => call env fx (apply_unop g a) = sel_apply1 g (call env fx a)
+  | CStr => xpull MPull (apply_unop g a) = smap (sel_apply1 g) (xpull MPull a)
+  | CPat => xpull MStream (apply_unop g a) = smap (sel_apply1 g) (xpull MStream a)
+  | CSeq KChan => apply_unop g a = list_unop_f oview OSeq OErr n (sel1_f n g) a KChan
+  | COperand r => apply_unop g a = mk_operand r (sel1_f n g (operand_value a))
+  | CNum => match num_of a with Some x => apply_unop g a = ONum (snd g x) | None => True end
+  | _ => apply_unop g a = OErr EType
+  end.
+Proof.
+  intros env fx g a Ha n. destruct a; try discriminate; try reflexivity.
+  destruct k; reflexivity.
+Qed.
+
+(* lazy objects (numbers, functions, streams, patterns and their composites: no sequence / Operand
+   layer) are combined without recursion, whatever the fuel *)
+Lemma depth0_fuel : forall m g x y, odepth x = 0 -> odepth y = 0 ->
+  apply_binop_f (S m) g x y = apply_binop_f 1 g x y.
+Proof. intros m g x y Hx Hy. destruct x; try discriminate; destruct y; try discriminate; reflexivity. Qed.
+
+Lemma sel2_f_depth0 : forall n g x y, odepth x = 0 -> odepth y = 0 -> sel2_f (S n) g x y = sel_apply2 g x y.
+Proof.
+  intros n g x y Hx Hy. unfold sel2_f, sel_apply2, apply_binop. rewrite Hx, Hy. simpl Nat.add.
+  destruct (fst g); [| |reflexivity]; rewrite (depth0_fuel n) by assumption; rewrite (depth0_fuel 1) by assumption; reflexivity.
+Qed.
+
+Lemma odepth_flat : forall k l, Forall (fun o => odepth o = 0) l -> odepth (OSeq k l) = 1.
+Proof.
+  intros k l H. simpl. f_equal. induction H as [|x l Hx _ IH]; [reflexivity|]. simpl. rewrite Hx, IH. reflexivity.
+Qed.
+
+(* ChannelList op list/tuple/ChannelList whose items are ANY lazy objects (numbers, Functions,
+   Streams, Patterns, mixed): length = max, item i = a[i mod |a|] op b[i mod |b|] by the dispatching
+   operator (so a Function item gives a composed Function, a Stream item a composed Stream, ...) *)
+Lemma chan_binop_wrap_law_mixed : forall g k la lb0,
+  la <> [] -> lb0 <> [] ->
+  Forall (fun o => odepth o = 0) la -> Forall (fun o => odepth o = 0) lb0 ->
+  exists r, apply_binop g (OSeq KChan la) (OSeq k lb0) = OSeq KChan r
+    /\ length r = Nat.max (length la) (length lb0)
+    /\ forall i, i < Nat.max (length la) (length lb0) ->
+         nth i r (ONum NErr) = sel_apply2 g (nth (i mod length la) la (ONum NErr)) (nth (i mod length lb0) lb0 (ONum NErr)).
+Proof.
+  intros g k la lb0 Hla Hlb Da Db.
+  pose proof (lift_binop_hom_step (fun _ => NErr) true g (OSeq KChan la) (OSeq k lb0) eq_refl eq_refl) as Hstep.
+  cbv zeta in Hstep. cbn [class_of] in Hstep.
+  rewrite (odepth_flat _ _ Da), (odepth_flat _ _ Db) in Hstep.
+  rewrite Hstep. clear Hstep.
+  set (a := OSeq KChan la). set (b := OSeq k lb0).
+  assert (Hnd : forall l i, Forall (fun o => odepth o = 0) l -> odepth (nth i l (ONum NErr)) = 0).
+  { intros l i Hl. revert i. induction Hl as [|x l Hx _ IH]; intros [|i]; simpl; auto. }
+  assert (Hview : forall x, odepth x = 0 -> oview x = None) by (intros x Hx; destruct x; try reflexivity; discriminate).
+  destruct (list_binop_wrap_law_gen obj oview OSeq OErr 1 (sel2_f 3 g) a b KChan KChan la k lb0 (ONum NErr))
+    as [r [Hr [Hlen Hnth]]]; try reflexivity; try assumption.
+  exists r. split; [exact Hr|]. split; [exact Hlen|].
+  intros i Hi. specialize (Hnth i Hi). cbv zeta in Hnth. rewrite Hnth.
+  rewrite list_binop_scalar_leaf by (apply Hview, Hnd; assumption).
+  apply sel2_f_depth0; apply Hnd; assumption.
+Qed.
+
+(* ====================================================================== *)
+(* function objects with unary, binary AND n-ary compositions, nested arbitrarily *)
+Section FunctionLawsNary.
+  Variable env : nat -> num.
+
+  Fixpoint fval3 (o : obj) : num :=
+    match o with
+    | ONum n => n
+    | OFn id => env id
+    | OUnFn g a => snd g (fval3 a)
+    | OBinFn g a b => snd g (fval3 a) (fval3 b)
+    | ONarFn g a args => snd g (fval3 a) (map fval3 args)
+    | _ => NErr
+    end.
+  Fixpoint nf3 (o : obj) : bool :=
+    match o with
+    | ONum _ | OFn _ => true
+    | OUnFn _ a => nf3 a
+    | OBinFn _ a b => nf3 a && nf3 b
+    | ONarFn _ a args => is_fn a && nf3 a && forallb nf3 args
+    | _ => false
+    end.
+
+  Lemma nf3_not_fn_is_num : forall o, nf3 o = true -> is_fn o = false -> exists n, o = ONum n.
+  Proof. intros o Hn Hf. destruct o; try discriminate; eexists; reflexivity. Qed.
+
+  (* with the repaired NaropFunction (every callable argument is evaluated) *)
+  Fixpoint call_fval3 (o : obj) : nf3 o = true -> call env true o = ONum (fval3 o).
+  Proof.
+    intros Hn.
+    destruct o as [n|id|g a|g a b|g a args|?|?|? ?|? ? ?|? ? ?|?|? ?|? ? ?|? ? ?|? ?|? ?|?|? ?|? ?|?]; try discriminate.
+    - reflexivity.
+    - reflexivity.
+    - simpl in *. rewrite (call_fval3 a Hn). apply sel_apply1_num.
+    - simpl in *. apply andb_true_iff in Hn as [Ha Hb].
+      assert (Hca : (if is_fn a then call env true a else a) = ONum (fval3 a)).
+      { destruct (is_fn a) eqn:E; [apply call_fval3; exact Ha|].
+        destruct (nf3_not_fn_is_num a Ha E) as [n ->]. reflexivity. }
+      assert (Hcb : (if is_fn b then call env true b else b) = ONum (fval3 b)).
+      { destruct (is_fn b) eqn:E; [apply call_fval3; exact Hb|].
+        destruct (nf3_not_fn_is_num b Hb E) as [n ->]. reflexivity. }
+      rewrite Hca, Hcb. apply sel_apply2_nums.
+    - simpl in Hn. apply andb_true_iff in Hn as [Hn Hargs]. apply andb_true_iff in Hn as [Hf Ha].
+      change (call env true (ONarFn g a args))
+        with (sel_apply3 g (call env true a) (map (fun x => if is_fn x then call env true x else x) args)).
+      rewrite (call_fval3 a Ha).
+      assert (Hm : map (fun x => if is_fn x then call env true x else x) args = map ONum (map fval3 args)).
+      { clear Hf Ha. induction args as [|x args IH]; [reflexivity|].
+        simpl in Hargs. apply andb_true_iff in Hargs as [Hx Hr]. simpl. rewrite (IH Hr). f_equal.
+        destruct (is_fn x) eqn:E; [apply call_fval3; exact Hx|].
+        destruct (nf3_not_fn_is_num x Hx E) as [n ->]. reflexivity. }
+      rewrite Hm. apply sel_apply3_nums.
+  Qed.
+
+  Lemma nf3_not_err : forall o, nf3 o = true -> is_err o = false.
+  Proof. intros o H; destruct o; try discriminate; reflexivity. Qed.
+  Lemma callv_fval3 : forall o, nf3 o = true -> callv env true o = ONum (fval3 o).
+  Proof.
+    intros o Hn. unfold callv. destruct (is_fn o) eqn:E; [apply call_fval3; exact Hn|].
+    destruct (nf3_not_fn_is_num o Hn E) as [n ->]. reflexivity.
+  Qed.
+  Lemma first_err_nf3 : forall args, forallb nf3 args = true -> first_err args = None.
+  Proof.
+    induction args as [|x args IH]; intros H; [reflexivity|]. simpl in H. apply andb_true_iff in H as [Hx Hr].
+    destruct x; try discriminate; simpl; apply IH; exact Hr.
+  Qed.
+
+  (* the three homomorphisms, closed under iteration: the result is again such an object *)
+  Lemma lift_hom_fn_nary : forall (g1 : op1) (g2 : op2) (g3 : op3) a b args,
+    nf3 a = true -> nf3 b = true -> forallb nf3 args = true ->
+    (is_fn a = true ->
+       callv env true (apply_unop g1 a) = ONum (snd g1 (fval3 a)) /\ nf3 (apply_unop g1 a) = true)
+    /\ (is_fn a || is_fn b = true ->
+       callv env true (apply_binop g2 a b) = ONum (snd g2 (fval3 a) (fval3 b)) /\ nf3 (apply_binop g2 a b) = true)
+    /\ (is_fn a = true ->
+       callv env true (apply_narop g3 a args) = ONum (snd g3 (fval3 a) (map fval3 args))
+       /\ nf3 (apply_narop g3 a args) = true).
+  Proof.
+    intros g1 g2 g3 a b args Ha Hb Hargs. split; [|split].
+    - intros Hf. rewrite fn_compose_unop by exact Hf. split; [|exact Ha].
+      rewrite callv_fval3 by exact Ha. reflexivity.
+    - intros Hf.
+      assert (Hc : apply_binop g2 a b = OBinFn g2 a b).
+      { destruct (is_fn a) eqn:Ea.
+        - apply fn_compose_binop; [exact Ea|apply nf3_not_err; exact Hb].
+        - destruct (nf3_not_fn_is_num a Ha Ea) as [n ->]. apply fn_rcompose_binop. exact Hf. }
+      rewrite Hc. split; [|simpl; rewrite Ha, Hb; reflexivity].
+      rewrite callv_fval3 by (simpl; rewrite Ha, Hb; reflexivity). reflexivity.
+    - intros Hf. rewrite fn_compose_narop by (try exact Hf; apply first_err_nf3; exact Hargs).
+      assert (Hn : nf3 (ONarFn g3 a args) = true) by (simpl; rewrite Hf, Ha, Hargs; reflexivity).
+      split; [|exact Hn]. rewrite callv_fval3 by exact Hn. reflexivity.
+  Qed.
+End FunctionLawsNary.
